@@ -92,7 +92,7 @@ func derive(evs []Event, n int, nv int) *schedule {
 					return sc
 				}
 				if inflight == 0 {
-					emit("(OVal 0 (zeros 0))", "ONone", i) // a transaction without (non-empty) values
+					emit("(OVal 0 (zeros 0))", "ONone", i-1) // a transaction without (non-empty) values: nothing is appended
 					inflight++
 				}
 				// did the hash tree fsync during this precommit? (its events follow, same critical section)
